@@ -45,10 +45,28 @@ impl D {
 
 /// The item type every pipeline stage is instantiated at. The token lets C17
 /// see whether anything still owns an item.
-#[derive(Clone, Debug)]
+#[derive(Debug)]
 pub struct V {
   pub d: D,
   pub tok: Option<Arc<()>>,
+}
+
+thread_local! {
+  /// user code inside `Item::clone`: a one-shot action the driver arms for one emission; it runs
+  /// the first time the library clones an item on this thread (engine S is single-threaded)
+  static CLONE_HOOK: std::cell::RefCell<Option<Box<dyn FnOnce()>>> = const { std::cell::RefCell::new(None) };
+}
+pub fn arm_clone_hook(f: Option<Box<dyn FnOnce()>>) {
+  CLONE_HOOK.with(|h| *h.borrow_mut() = f);
+}
+impl Clone for V {
+  fn clone(&self) -> V {
+    let f = CLONE_HOOK.with(|h| h.borrow_mut().take());
+    if let Some(f) = f {
+      f();
+    }
+    V { d: self.d.clone(), tok: self.tok.clone() }
+  }
 }
 impl V {
   pub fn new(d: D) -> V {
